@@ -163,6 +163,12 @@ func (t *listTarget) Call(c string) string {
 		return fmt.Sprintf("ret pop %d %v", v, ok)
 	case c == "l":
 		return fmt.Sprintf("ret len %d", t.l.Len())
+	case c == "w": // PopWait(d < 0): Pop in a Gosched loop until it succeeds
+		v, ok := t.l.PopWait(-1)
+		return fmt.Sprintf("ret pop %d %v", v, ok)
+	case c == "z": // PopWait(0): a single Pop
+		v, ok := t.l.PopWait(0)
+		return fmt.Sprintf("ret pop %d %v", v, ok)
 	case strings.HasPrefix(c, "u"):
 		v, err := strconv.Atoi(c[1:])
 		if err != nil {
@@ -205,7 +211,7 @@ func parseHeader(line string) (ninit int, progs [][]string, ok bool) {
 	}
 	for _, p := range progs {
 		for _, c := range p {
-			if c == "o" || c == "l" {
+			if c == "o" || c == "l" || c == "w" || c == "z" {
 				continue
 			}
 			if !strings.HasPrefix(c, "u") {
